@@ -120,6 +120,10 @@ func validateV1alpha1RolloutSpecObjectRef(objectRef *appsv1alpha1.ObjectRef, fld
 	if !util.IsSupportedWorkload(gvk) {
 		return field.ErrorList{field.Invalid(fldPath.Child("WorkloadRef"), objectRef.WorkloadRef, "WorkloadRef kind is not supported")}
 	}
+	// ReplicaSet is a known kind only for walking owner chains; the controllers cannot release one
+	if gvk.Group == util.ControllerKindRS.Group && gvk.Kind == util.ControllerKindRS.Kind {
+		return field.ErrorList{field.Invalid(fldPath.Child("WorkloadRef"), objectRef.WorkloadRef, "WorkloadRef kind ReplicaSet is not supported")}
+	}
 	return nil
 }
 
